@@ -59,6 +59,18 @@ impl FrameAckQueue {
         if self.receive_window.contains(frame_id) {
             self.receive_window.advance(frame_id.wrapping_add(1));
 
+            // Acknowledgements which could not be sent in time are dropped once they are two
+            // windows behind, as the sender has long forgotten those frames. Without this, frames
+            // arriving faster than acknowledgements may be sent make the queue grow without bound.
+            while let Some(first_entry) = self.entries.front() {
+                let lag = self.receive_window.base_id.wrapping_sub(first_entry.base_id);
+                if lag >= 2 * self.receive_window.size {
+                    self.entries.pop_front();
+                } else {
+                    break;
+                }
+            }
+
             if let Some(last_entry) = self.entries.back_mut() {
                 let bit = frame_id.wrapping_sub(last_entry.base_id);
                 if bit < 32 {
